@@ -71,18 +71,42 @@ def decoder_table(ctx):
     return table
 
 
-def handler_opaque(body, args):
-    if body.path.startswith(HANDLER + "::") and body.name not in ("handle_request",):
-        return "opaque"
-    if body.path.startswith(MEMC + "::"):
-        return "opaque"
-    if body.name in ("into_quiet_get", "into_quiet_mutation"):
-        return "opaque"
-    return "inline"
+def command_methods(ctx):
+    """the BinaryHandler methods that talk to the storage themselves (a direct call of a MemcStore method, possibly from a
+    closure of theirs): these execute one command; whatever sits between handle_request and them is dispatch"""
+    if "command_methods" not in ctx._cache:
+        import callgraph
+
+        cg = callgraph.get(ctx)
+        f = ctx.facts
+        out = set()
+        for bp, sites in cg.sites.items():
+            body = f.bodies.get(bp)
+            if body is None:
+                continue
+            owner = body.root or bp
+            if not owner.startswith(HANDLER + "::") or owner == HANDLER + "::handle_request":
+                continue
+            if any(strip_generics(t.callee.path or "").startswith(MEMC + "::") for _bb, t in sites):
+                out.add(owner)
+        ctx._cache["command_methods"] = out
+    return ctx._cache["command_methods"]
+
+
+def handler_policy(ctx):
+    cm = command_methods(ctx)
+
+    def pol(body, args):
+        if body.path in cm or body.path.startswith(MEMC + "::"):
+            return "opaque"
+        return "inline"
+
+    return pol
 
 
 def handler_table(ctx):
-    """variant -> list of path summaries: {'method', 'filter', 'ret'}"""
+    """variant -> list of path summaries: {'calls' (command methods), 'other', 'ret'}; dispatch helpers between
+    handle_request and the command methods are inlined"""
     if "handler_table" in ctx._cache:
         return ctx._cache["handler_table"]
     f = ctx.facts
@@ -92,7 +116,7 @@ def handler_table(ctx):
     for v in adt["variants"]:
         vi = adt["variants"].index(v)
         req = Struct(BREQ, v["name"], vi, OrderedDict([("0", P("payload"))]))
-        I = Interp(f, policy=handler_opaque)
+        I = Interp(f, policy=handler_policy(ctx))
         paths = I.run(b, [P("self"), req])
         rows = []
         for p in paths:
@@ -101,6 +125,76 @@ def handler_table(ctx):
             rows.append({"calls": calls, "other": other, "ret": p.ret, "path": p})
         table[v["name"]] = rows
     ctx._cache["handler_table"] = table
+    return table
+
+
+def response_cases(ctx):
+    """concrete responses a command can produce, as far as the quiet rules care: errors by status, and success"""
+    f = ctx.facts
+    vidx = {v["name"]: i for i, v in enumerate(f.adts[BRESP]["variants"])}
+
+    def err(status):
+        hdr = Struct(None, None, 0, OrderedDict([("status", status)]), F(P("r"), "header"))
+        return Struct(BRESP, "Error", vidx["Error"], OrderedDict([("0", Struct(None, None, 0, OrderedDict([("header", hdr)]), P("r")))]))
+
+    return OrderedDict(
+        [
+            ("Error(NotFound)", err(1)),
+            ("Error(KeyExists)", err(2)),
+            ("Error(0x81)", err(0x81)),
+            ("success", Struct(BRESP, "Set", vidx["Set"], OrderedDict([("0", P("r"))]))),
+        ]
+    )
+
+
+def reply_table(ctx):
+    """variant -> case -> {'outs': set of 'Some(same)'|'Some(other)'|'None'|'Some(<Variant>)', 'calls': [...]}:
+    handle_request evaluated with every command method answering a given concrete response — which requests are
+    answered and with what, independent of how the dispatch and the quiet filtering are organised into functions"""
+    if "reply_table" in ctx._cache:
+        return ctx._cache["reply_table"]
+    f = ctx.facts
+    b = f.one(HANDLER + "::handle_request")
+    adt = f.adts[BREQ]
+    cm = command_methods(ctx)
+    table = OrderedDict()
+    for vi, v in enumerate(adt["variants"]):
+        req = Struct(BREQ, v["name"], vi, OrderedDict([("0", P("payload"))]))
+        row = OrderedDict()
+        for cname, val in response_cases(ctx).items():
+
+            def mk(name, val=val):
+                def m(I, st, t, args, site, depth):
+                    snap = [I.snapshot(st, a) for a in args]
+                    res = ("call", name, site, tuple(tform(a) for a in snap))
+                    st.events.append(Event("call", name, snap, site, t.span, tuple(I.ctx), res, t.callee, extra={"raw_args": args}))
+                    return [(st, val)]
+
+                return m
+
+            models = dict(BUF_MODELS)
+            for name in cm:
+                models[name] = mk(name)
+            I = Interp(f, models=models, policy=lambda body, a: "opaque" if body.path.startswith(MEMC + "::") else "inline")
+            outs = set()
+            calls = []
+            for p in I.run(b, [P("self"), req]):
+                cc = [e for e in p.events if e.kind == "call" and e.name in cm]
+                var, pl = variant_of(p.ret)
+                if var == "None":
+                    o = "None"
+                elif var == "Some":
+                    if cc:
+                        o = "Some(same)" if (pl is val or tform(pl) == tform(val)) else "Some(other)"
+                    else:
+                        o = "Some(%s)" % (pl.variant if isinstance(pl, Struct) else "?")
+                else:
+                    o = "?"
+                outs.add(o)
+                calls.append(cc)
+            row[cname] = {"outs": outs, "calls": calls}
+        table[v["name"]] = row
+    ctx._cache["reply_table"] = table
     return table
 
 
@@ -113,7 +207,8 @@ def predicate_table(ctx, name):
     b = f.one(HANDLER + "::" + name)
     t = {}
     for op in range(256):
-        r = Interp(f).run(b, [P("self"), op])
+        # method (&self, opcode) or associated function (opcode)
+        r = Interp(f).run(b, [P("self"), op] if b.arg_count == 2 else [op])
         vals = set(tform(p.ret) for p in r)
         t[op] = vals
     ctx._cache[key] = t
